@@ -264,6 +264,16 @@ def run(ctx):
         writes = [n for n in ast.walk(f.node) if isinstance(n, (ast.Assign, ast.AugAssign, ast.AnnAssign))
                   for t in (n.targets if isinstance(n, ast.Assign) else [n.target])
                   if isinstance(t, ast.Attribute) and isinstance(t.value, ast.Name) and t.value.id in (recv, "Discover")]
+        # ... nor into one: cls.table[key] = ..., cls.table.update / setdefault / append / add(...)
+        def shared_base(e):
+            while isinstance(e, ast.Subscript):
+                e = e.value
+            return isinstance(e, ast.Attribute) and isinstance(e.value, ast.Name) and e.value.id in (recv, "Discover")
+        writes += [n for n in ast.walk(f.node) if isinstance(n, (ast.Assign, ast.AugAssign, ast.AnnAssign))
+                   for t in (n.targets if isinstance(n, ast.Assign) else [n.target]) if isinstance(t, ast.Subscript) and shared_base(t)]
+        writes += [n for n in ast.walk(f.node) if isinstance(n, ast.Call) and isinstance(n.func, ast.Attribute)
+                   and n.func.attr in ("update", "setdefault", "append", "add", "extend", "insert", "pop", "clear", "remove", "discard", "popitem")
+                   and shared_base(n.func.value)]
         ctx.count("shared_state_scans")
         ctx.ob("C18.c", q, not writes, "the per-host parse path stores to no class attribute (hosts share no state)", func=q, file=f.module.rel,
                node=writes[0] if writes else None, fail="per-host coroutine writes shared class state: results depend on arrival order")
